@@ -11,3 +11,9 @@ pub unsafe fn volatile_set_stub<T: Copy + Sized>(_dst: *mut T, _src: T, _count: 
 pub fn fmt_format_stub(_args: core::fmt::Arguments<'_>) -> alloc::string::String {
     alloc::string::String::new()
 }
+
+/// `<Vec<u8> as Zeroize>::zeroize`: element-wise volatile writes, clear, spare-capacity wipe. Modelled
+/// as `clear()` (the contents of freed secrets are not observable by any harness).
+pub fn vec_u8_zeroize_stub(v: &mut alloc::vec::Vec<u8>) {
+    v.clear();
+}
